@@ -14,7 +14,7 @@ TECHNIQUE = "Hypothesis-generated parameter sets and screens; metamorphic relati
 RULE = (
     "both shipped sample types with finite parameters up to 1e6 in magnitude, arity-2 screens on a shared mapping with control in either/both "
     "columns, duplicate rows, any row order; a boolean sub-selection, a row permutation, the column-swapped screen, the arity-1 twin; the "
-    "stacked/averaged helpers on 1..4 samples; NaN parameters must make the helpers raise; for the interaction type the first sample's single-effect table is then updated in place (as the model does on new data) and the same screen and subset objects are predicted again. Non-trivial = screen has a control in each column "
+    "stacked/averaged helpers on 1..4 samples; NaN parameters must make the helpers raise; inf / NaN parameters of ONE treatment must leave every experiment that does not contain it bit-for-bit unchanged; for the interaction type the first sample's single-effect table is then updated in place (as the model does on new data) and the same screen and subset objects are predicted again. Non-trivial = screen has a control in each column "
     "somewhere and at least one true combination. distinct = distinct case JSON."
 )
 ASSUMPTIONS = [
@@ -205,6 +205,32 @@ def check_case(case):
                         require(_close(np.asarray(theta.predict_conditional_mean(one.subset(half)), dtype=float), got[half]), "mean.subset.arity1", "arity-1 prediction on a subset differs from the whole-screen entries")
             msg = _unchanged(theta, screen, snap)
             require(msg is None, "purity", lambda: msg)
+
+        # a prediction depends only on the experiment's own sample and non-control treatments: making the parameters of ONE treatment
+        # non-finite must leave every experiment that does not contain that treatment bit-for-bit unchanged (control slots included)
+        p0 = case["thetas"][0]
+        base_mean = np.asarray(holder.thetas[0].predict_conditional_mean(screen), dtype=float)
+        base_via = np.asarray(holder.thetas[0].predict_viability(screen), dtype=float)
+        for t_star in sorted({len(p0["V2"]) - 1, case["perm_seed"] % len(p0["V2"])}):
+            for bad in (float("inf"), float("nan")):
+                q = copy.deepcopy(p0)
+                for key in ("V2", "V1"):
+                    if key in q:
+                        q[key][t_star] = [bad for _ in q[key][t_star]]
+                if "V0" in q:
+                    q["V0"][t_star] = -bad
+                tq = S.build_theta(q)
+                unaffected = ~np.any(tid == t_star, axis=1)
+                if not unaffected.any():
+                    continue
+                gm = np.asarray(tq.predict_conditional_mean(screen), dtype=float)
+                require(S.same_bits(gm[unaffected], base_mean[unaffected]), "mean.other_treatments_parameters_irrelevant", lambda: "with the parameters of treatment %d set to %r, experiments that do not contain it predict %r instead of %r (ids %r)" % (t_star, bad, gm[unaffected].tolist(), base_mean[unaffected].tolist(), tid[unaffected].tolist()))
+                try:
+                    gv = np.asarray(tq.predict_viability(screen), dtype=float)
+                except KeyError:
+                    gv = None
+                if gv is not None:
+                    require(S.same_bits(gv[unaffected], base_via[unaffected]), "viability.other_treatments_parameters_irrelevant", lambda: "with the parameters of treatment %d set to %r, the viability of experiments that do not contain it changes" % (t_star, bad))
 
         if kind != "additive" and case["thetas"][0]["table"]:
             # the single-effect table of a sample is the model's own dict, which the model updates IN PLACE when it receives
